@@ -4,6 +4,7 @@ import GrVerif.Proofs.Fsm
 import GrVerif.Model.Position
 import GrVerif.Proofs.IndexPerm
 import GrVerif.Proofs.PassGid
+import GrVerif.Proofs.CursorShape
 namespace Driver.Shape
 open GrVerif.Vm GrVerif.Seg GrVerif.Action GrVerif.Pass Driver
 
@@ -91,6 +92,8 @@ def step (line : String) : String :=
                            bPass := ((field ws "bidi").bind String.toNat?).getD 0xFF,
                            aMirror := ((field ws "mirror").bind String.toNat?).getD 0 }
       let dir := ((field ws "dir").bind String.toNat?).getD 0
+      -- the executable hypothesis of `no_write_through_a_null_cursor` (Props/C02): every rule's code passes the loader's cursor tests
+      (if fontOK font then "curok=1 " else "curok=0 ") ++
       match shape font text.toList 100000 dir with
       | .error w => "fault " ++ w
       | .ok none => "trie=" ++ String.join ((ps.splitOn "|").zip passes |>.map fun (src, p) => trieBit p (parsePats src)) ++ " noseg"
